@@ -104,6 +104,13 @@ class zmesh(object):
     def verif_bytes(self):
         return b'zmesh' + self.v.tobytes()
 
+    def verif_after_write(self):
+        """called by the simulated MPI after it wrote into self.v (sums arrive unreduced)"""
+        self.v %= P
+
+    def copy(self):
+        return type(self)(self)
+
     def __repr__(self):
         return f'z{self.tolist()}'
 
